@@ -1039,6 +1039,61 @@ bigbit_case(long idx, void *ctx)
         mc_sample("large bit element (%ld bits, width cycle %d,%d,%d,%d): sequential re-partitioned read + bit seeks at every offset within 34 bits of the 4096/8192-byte buffer boundaries", nbits, w[0], w[1], w[2], w[3]);
 }
 
+/* long coded elements: seeks whose distance from the decoder's position is an exact multiple of its skip buffer (and one more,
+   one fewer), forward from every earlier position and backward (restart from the beginning) */
+static void
+bigseek_case(long idx, void *ctx)
+{
+    (void)ctx;
+    const coder_t *c = &CODERS[idx % NCODERS];
+    int cfg[2] = {5, (int)idx};
+    mc_set_config(cfg, 2, "bigseek coder=%s", c->name);
+    mc_set_case("coder %s, 70000-byte element: every ordered pair of seek targets around multiples of 4096 / 16384, 16 bytes read after each seek", c->name);
+    static uint8 v[70000];
+    uint32       x = 12345u + (uint32)idx;
+    for (int i = 0; i < 70000; i++) {
+        x = x * 1103515245u + 12345u;
+        v[i] = (i / 37) % 3 == 0 ? (uint8)(i / 37) : (uint8)(x >> 24); /* runs and noise */
+    }
+    vfs_remove_file(PATH);
+    fid = Hopen(PATH, DFACC_CREATE, 16);
+    int32 aid = fid == FAIL ? FAIL : create_elem(c, 1);
+    if (aid == FAIL || Hwrite(aid, 70000, v) != 70000 || Hendaccess(aid) == FAIL || Hclose(fid) == FAIL) {
+        mc_violation("bigseek:write", "writing the 70000-byte %s element failed", c->name);
+        return;
+    }
+    fid = Hopen(PATH, DFACC_READ, 0);
+    static const int32 T[] = {0, 1, 4095, 4096, 4097, 8192, 16383, 16384, 16385, 20480, 32767, 32768, 32769, 49152, 65536, 69984};
+    int nt = (int)(sizeof T / sizeof T[0]);
+    for (int a = 0; a < nt; a++)
+        for (int b = 0; b < nt; b++) {
+            uint8 got[16];
+            aid = Hstartread(fid, TAG, 1);
+            int ok = aid != FAIL;
+            for (int q = 0; q < 2 && ok; q++) {
+                int32 t = q ? T[b] : T[a];
+                memset(got, 0xEE, sizeof got);
+                if (Hseek(aid, t, DF_START) == FAIL || Hread(aid, 16, got) != 16) {
+                    mc_violation("bigseek:failed", "%s: Hseek(%d)/Hread(16) fails (previous position %d)", c->name, (int)t, q ? (int)T[a] + 16 : 0);
+                    ok = 0;
+                }
+                else if (memcmp(got, v + t, 16)) {
+                    mc_violation("bigseek:content", "%s: after Hseek(%d) from position %d the 16 bytes read are not those stored there", c->name, (int)t, q ? (int)T[a] + 16 : 0);
+                    ok = 0;
+                }
+            }
+            if (aid != FAIL)
+                Hendaccess(aid);
+            mc_count("bigseek_reads", 2);
+            if (!ok)
+                goto out;
+        }
+out:
+    Hclose(fid);
+    fid = FAIL;
+    mc_outcome(mc_hash_i(MC_H0, 888000 + idx));
+}
+
 /* ------------------------------------------------------------------ main */
 static void
 build_strings(int thorough)
@@ -1137,6 +1192,10 @@ C05_main(const char *tier, const char *replay)
             printf("replay C05 n-bit case\n");
             nbit_case(0, NULL);
         }
+        else if (cfg[0] == 5) {
+            bigseek_case(cfg[1], NULL);
+            return 0;
+        }
         else if (cfg[0] == 3) {
             printf("replay C05 large bit element case %d\n", cfg[1]);
             bigbit_case(cfg[1], NULL);
@@ -1169,6 +1228,9 @@ C05_main(const char *tier, const char *replay)
     mc_round_end();
     mc_round_begin("bit I/O: large elements, seeks around the 4096-byte buffer boundaries");
     mc_foreach(18, bigbit_case, NULL, 1, 300);
+    mc_round_end();
+    mc_round_begin("byte coders: long elements, seek distances around multiples of the skip buffers");
+    mc_foreach(NCODERS, bigseek_case, NULL, 1, 300);
     mc_round_end();
     mc_count("evaluations", NSTR * NCODERS + NNB + 2 * nbit + 6);
     mc_rule("byte coders %d x %ld input strings (all binary strings up to length %d, ternary strings with a third symbol, run-structured strings around the "
